@@ -8,6 +8,7 @@ class SameID:
       return super()._process_not_unique(previous)
     # contradictory tags are reported before anything is merged
     self._check_tags_of_previous_group_definition(previous)
+    self._check_items_not_self()
     self._gfa = previous.gfa
     self._initialize_references()
     cur_items = self.get("items")
